@@ -114,12 +114,24 @@ type TxSpec struct {
 }
 
 type Action struct {
-	Op    string  `json:"op"`             // accounts | sign | typed | walletfile | refresh | write | settle
+	Op    string  `json:"op"`             // accounts | sign | typed | walletfile | refresh | write | settle | scribble
+	W     int     `json:"w,omitempty"`    // the wallet addressed: 0 = the first, 1 = the twin
 	Addr  string  `json:"addr,omitempty"` // 40 lower-case hex digits
 	From  string  `json:"from,omitempty"` // sign: spelling of the from field: 0x | plain | upper
 	Tx    *TxSpec `json:"tx,omitempty"`
 	Typed int     `json:"typed,omitempty"`
 	File  *File   `json:"file,omitempty"`
+	Mode  string  `json:"mode,omitempty"` // scribble: zero | decoy - what the caller does to its own Config variable
+}
+
+// Twin is a second wallet that the caller builds from THE SAME fswallet.Config variable,
+// re-pointed at a second directory (root/twin/{w,p,k,default.pw}) with its own settings,
+// right after the first wallet was constructed.  Both wallets are then used side by side
+// (Action.W) and each is judged against the model of its own directory and configuration.
+type Twin struct {
+	Cfg      Cfg    `json:"cfg"`
+	Files    []File `json:"files"`
+	LateInit bool   `json:"lateInit,omitempty"` // the first wallet's Initialize runs only after the variable was re-pointed
 }
 
 type Case struct {
@@ -127,6 +139,10 @@ type Case struct {
 	Keys  []string `json:"keys"`  // private keys, 32-byte hex
 	Files []File   `json:"files"` // initial layout, written in order before the wallet starts
 	Acts  []Action `json:"acts"`
+	// Scribble: what the caller does to its Config variable between NewFilesystemWallet and
+	// Initialize ("" nothing | zero | decoy); later modifications are "scribble" actions.
+	Scribble string `json:"scribble,omitempty"`
+	Twin     *Twin  `json:"twin,omitempty"`
 }
 
 // ---------------------------------------------------------------------------------------
@@ -681,7 +697,15 @@ func (m *model) resolve(primary string, addr string) resolution {
 	want := keyNode.V3.Pw
 	if pwPath != "" {
 		if content, ok := m.content(pwPath); ok {
+			// A per-key password file that is present and readable IS the key's password source,
+			// whatever it holds: with trimming its content minus leading/trailing white space
+			// (possibly the empty password), without trimming its content byte for byte (a file
+			// holding "\n" is the password "\n").  The default file is for keys that have no
+			// per-key password file (config.md: "if one is not specified individually for the key").
 			pw := string(content)
+			if strings.TrimSpace(pw) == "" {
+				src += "(empty or white-space-only file)"
+			}
 			if m.cfg.Trim {
 				if t := strings.TrimSpace(pw); t != pw {
 					pw = t
@@ -715,6 +739,9 @@ func (m *model) resolve(primary string, addr string) resolution {
 	if m.cfg.Trim && strings.TrimSpace(pw) != pw {
 		// whether passwordTrimSpace covers the default file is not asserted
 		return r
+	}
+	if strings.TrimSpace(pw) == "" {
+		r.src += "(empty or white-space-only default file)"
 	}
 	r.usable = pw == want
 	return r
@@ -939,6 +966,72 @@ func sortedKeys(m map[string]bool) []string {
 	return out
 }
 
+// run is one wallet under test together with the reference model of ITS directory.
+type run struct {
+	tag      string // "" for the first wallet, "twin " for the second one built from the same Config variable
+	w        fswallet.Wallet
+	m        *model
+	own      fswallet.Config // the configuration this wallet was constructed from (the harness's private copy)
+	okBefore map[string]bool
+}
+
+// scribble is what a caller may do with ITS OWN Config variable once NewFilesystemWallet has
+// returned: the wallet must have taken what it needs (F2: inputs are not retained).
+func scribble(conf *fswallet.Config, mode, root string) {
+	if mode == "zero" {
+		*conf = fswallet.Config{}
+		return
+	}
+	decoy := filepath.Join(root, "decoy") // an existing, empty directory
+	conf.Path = decoy
+	conf.DefaultPasswordFile = filepath.Join(decoy, "default.pw")
+	conf.SignerCacheSize, conf.SignerCacheTTL = "0", "1ns"
+	conf.DisableListener = !conf.DisableListener
+	conf.Filenames = fswallet.FilenamesConfig{
+		PrimaryMatchRegex: "^(never)$", PrimaryExt: ".decoy", PasswordExt: ".nopw", PasswordPath: decoy,
+		PasswordTrimSpace: !conf.Filenames.PasswordTrimSpace, With0xPrefix: !conf.Filenames.With0xPrefix,
+	}
+	f := "json"
+	if conf.Metadata.Format == "json" {
+		f = "toml"
+	}
+	conf.Metadata = fswallet.MetadataConfig{Format: f, KeyFileProperty: "{{ .decoyKey }}", PasswordFileProperty: "{{ .decoyPassword }}"}
+}
+
+func confDiff(a, b fswallet.Config) string {
+	ja, _ := json.Marshal(a)
+	jb, _ := json.Marshal(b)
+	return fmt.Sprintf("%s -> %s", ja, jb)
+}
+
+// start runs Initialize (with the inotify-exhaustion fallback) and takes the model's first scan.
+func (r *run) start(ctx context.Context) []evid.Violation {
+	err := r.w.Initialize(ctx)
+	for try := 0; err != nil && r.m.cfg.Listener && try < 20; try++ {
+		// the only thing that can fail here is the OS refusing another inotify instance while
+		// other checks run: infrastructure, not the property
+		_ = r.w.Close()
+		time.Sleep(100 * time.Millisecond)
+		cc := r.own
+		r.w, _ = fswallet.NewFilesystemWallet(ctx, &cc)
+		err = r.w.Initialize(ctx)
+	}
+	if err != nil && r.m.cfg.Listener {
+		note("infra:listener-unavailable(case run without listener)")
+		_ = r.w.Close()
+		r.m.cfg.Listener = false
+		cc := r.own
+		cc.DisableListener = true
+		r.w, _ = fswallet.NewFilesystemWallet(ctx, &cc)
+		err = r.w.Initialize(ctx)
+	}
+	if err != nil {
+		return []evid.Violation{evid.V("exactness", "%sInitialize fails on a readable wallet directory: %v", r.tag, err)}
+	}
+	r.m.snapshot()
+	return nil
+}
+
 func judgeWallet(c Case) (vs []evid.Violation) {
 	if tmpBase == "" {
 		tmpBase = os.TempDir()
@@ -953,177 +1046,242 @@ func judgeWallet(c Case) (vs []evid.Violation) {
 			return []evid.Violation{evid.V("harness", "key %d is not a valid private key", i)}
 		}
 	}
-	m := newModel(&c, root)
-	if err := os.MkdirAll(m.abs("w"), 0o755); err != nil {
-		panic(fmt.Sprintf("harness: %v", err))
-	}
-	for _, f := range c.Files {
-		if err := m.write(f, true); err != nil {
-			return []evid.Violation{evid.V("harness", "layout: %v", err)}
+	lay := func(m *model, files []File) error {
+		for _, d := range []string{"w", "decoy"} {
+			if err := os.MkdirAll(m.abs(d), 0o755); err != nil {
+				panic(fmt.Sprintf("harness: %v", err))
+			}
 		}
+		for _, f := range files {
+			if err := m.write(f, true); err != nil {
+				return err
+			}
+		}
+		return nil
 	}
 	ctx := context.Background()
+	m := newModel(&c, root)
+	if err := lay(m, c.Files); err != nil {
+		return []evid.Violation{evid.V("harness", "layout: %v", err)}
+	}
+
+	// ONE caller-owned Config variable for everything that follows.  The wallet may read it
+	// during NewFilesystemWallet; it must neither write to it nor keep using it afterwards
+	// (the caller re-points it for its next wallet, or lets it go out of scope).
 	conf := c.Cfg.build(root)
+	last := *conf // what the caller last stored in its variable
+	callerVar := func(when string) {
+		if *conf != last {
+			vs = append(vs, evid.V("caller-config", "%s: the wallet wrote to the caller's Config: %s", when, confDiff(last, *conf)))
+			last = *conf
+		}
+	}
 	w, err := fswallet.NewFilesystemWallet(ctx, conf)
 	if err != nil {
 		return []evid.Violation{evid.V("availability", "a valid configuration is rejected: %v", err)}
 	}
-	err = w.Initialize(ctx)
-	for try := 0; err != nil && c.Cfg.Listener && try < 20; try++ {
-		// the only thing that can fail here is the OS refusing another inotify instance while
-		// other checks run: infrastructure, not the property
-		_ = w.Close()
-		time.Sleep(100 * time.Millisecond)
-		w, _ = fswallet.NewFilesystemWallet(ctx, conf)
-		err = w.Initialize(ctx)
-	}
-	if err != nil && c.Cfg.Listener {
-		note("infra:listener-unavailable(case run without listener)")
-		_ = w.Close()
-		m.cfg.Listener = false
-		conf.DisableListener = true
-		w, _ = fswallet.NewFilesystemWallet(ctx, conf)
-		err = w.Initialize(ctx)
-	}
-	defer func() { _ = w.Close() }()
-	if err != nil {
-		return []evid.Violation{evid.V("exactness", "Initialize fails on a readable wallet directory: %v", err)}
-	}
-	m.snapshot()
-
-	okBefore := map[string]bool{}
-	for i, a := range c.Acts {
-		switch a.Op {
-		case "accounts":
-			vs = append(vs, checkAccounts(ctx, w, m, i)...)
-		case "refresh":
-			if err := w.Refresh(ctx); err != nil {
-				vs = append(vs, evid.V("exactness", "action %d: Refresh fails on a readable wallet directory: %v", i, err))
-			} else {
-				m.snapshot()
-			}
-		case "write":
-			if a.File == nil {
-				return append(vs, evid.V("harness", "action %d: write without file", i))
-			}
-			if err := m.write(*a.File, true); err != nil {
-				return append(vs, evid.V("harness", "action %d: %v", i, err))
-			}
-		case "settle":
-			// give the listener a moment so that later requests exercise the notification path; no verdict
-			deadline := time.Now().Add(300 * time.Millisecond)
-			for {
-				lower, _ := m.accountBoundsIfScanned()
-				got, _ := w.GetAccounts(ctx)
-				have := map[string]bool{}
-				for _, g := range got {
-					if g != nil {
-						have[hex.EncodeToString(g[:])] = true
-						m.observed[hex.EncodeToString(g[:])] = true
-					}
-				}
-				missing := false
-				for a := range lower {
-					if !have[a] {
-						missing = true
-					}
-				}
-				if !missing || time.Now().After(deadline) || !m.cfg.Listener {
-					if missing {
-						note("settle:listener-still-pending-after-300ms")
-					} else {
-						note("settle:all-present-files-listed")
-					}
-					break
-				}
-				time.Sleep(time.Millisecond)
-			}
-		case "sign", "typed", "walletfile":
-			if !isHex40(a.Addr) {
-				return append(vs, evid.V("harness", "action %d: bad address %q", i, a.Addr))
-			}
-			ex := m.expect(a.Addr)
-			var ab [20]byte
-			b, _ := hex.DecodeString(a.Addr)
-			copy(ab[:], b)
-			var reqErr error
-			var signer string // who the result is bound to, by the independent oracle
-			var oracleErr error
-			switch a.Op {
-			case "sign":
-				tx := a.Tx
-				if tx == nil {
-					tx = &TxSpec{ChainID: 1}
-				}
-				var out []byte
-				out, reqErr = w.Sign(ctx, tx.build(fromJSON(a.Addr, a.From)), tx.ChainID)
-				if reqErr == nil {
-					signer, oracleErr = recoverTx(out, tx.ChainID)
-				}
-			case "typed":
-				var res *ethsigner.EIP712Result
-				res, reqErr = w.SignTypedDataV4(ctx, ethtypes.Address0xHex(ab), typedPayload(a.Typed))
-				if reqErr == nil {
-					if res == nil {
-						oracleErr = fmt.Errorf("nil result without error")
-						break
-					}
-					signer, oracleErr = recoverRSV(res.Hash, res.R, res.S, res.V.BigInt().Int64())
-					if oracleErr == nil {
-						if len(res.SignatureRSV) != 65 {
-							oracleErr = fmt.Errorf("compact signature of %d bytes", len(res.SignatureRSV))
-						} else if s2, e2 := recoverRSV(res.Hash, res.SignatureRSV[0:32], res.SignatureRSV[32:64], int64(res.SignatureRSV[64])); e2 != nil || s2 != signer {
-							oracleErr = fmt.Errorf("compact signature recovers to %q (%v), V/R/S fields to %s", s2, e2, signer)
-						}
-					}
-				}
-			case "walletfile":
-				var wf keystorev3.WalletFile
-				wf, reqErr = w.GetWalletFile(ctx, ethtypes.Address0xHex(ab))
-				if reqErr == nil {
-					if wf == nil || wf.KeyPair() == nil {
-						oracleErr = fmt.Errorf("nil wallet file / key pair without error")
-						break
-					}
-					priv := wf.PrivateKey()
-					signer = addrOfKey(hex.EncodeToString(priv))
-					if signer == "" {
-						oracleErr = fmt.Errorf("wallet file holds %d bytes that are not a valid private key", len(priv))
-					} else if claimed := hex.EncodeToString(wf.KeyPair().Address[:]); claimed != signer {
-						oracleErr = fmt.Errorf("KeyPair().Address %s is not the address of the private key held (%s)", claimed, signer)
-					}
-				}
-			}
-			switch {
-			case reqErr != nil:
-				note("outcome:" + a.Op + ":refused")
-				if ex.must {
-					vs = append(vs, evid.V("availability", "action %d: %s for 0x%s fails although its key file and a usable password (%s) are present: %v", i, a.Op, a.Addr, ex.src, reqErr))
-				}
-			case oracleErr != nil:
-				vs = append(vs, evid.V("safety", "action %d: %s for 0x%s succeeded but the result cannot be tied to a signer: %v", i, a.Op, a.Addr, oracleErr))
-			case signer != a.Addr:
-				vs = append(vs, evid.V("safety", "action %d: %s for 0x%s succeeded with the key of 0x%s (earlier success for this address: %v)", i, a.Op, a.Addr, signer, okBefore[a.Addr]))
-			default:
-				if okBefore[a.Addr] {
-					note("outcome:" + a.Op + ":ok-again(cached or reloaded)")
-				} else {
-					note("outcome:" + a.Op + ":ok")
-				}
-				okBefore[a.Addr] = true
-			}
-			if ex.must {
-				note("claim:must-succeed via " + ex.src)
-			}
-		default:
-			return append(vs, evid.V("harness", "action %d: unknown op %q", i, a.Op))
+	runs := []*run{{w: w, m: m, own: last, okBefore: map[string]bool{}}}
+	defer func() {
+		for _, r := range runs {
+			_ = r.w.Close()
 		}
+	}()
+	callerVar("NewFilesystemWallet")
+	if c.Scribble != "" {
+		scribble(conf, c.Scribble, root)
+		last = *conf
+	}
+	if c.Twin == nil || !c.Twin.LateInit {
+		if v := runs[0].start(ctx); v != nil {
+			return append(vs, v...)
+		}
+		callerVar("Initialize")
+	}
+	if c.Twin != nil {
+		root2 := filepath.Join(root, "twin")
+		m2 := newModel(&Case{Cfg: c.Twin.Cfg, Keys: c.Keys}, root2)
+		if err := lay(m2, c.Twin.Files); err != nil {
+			return append(vs, evid.V("harness", "twin layout: %v", err))
+		}
+		*conf = *c.Twin.Cfg.build(root2) // the same variable, re-pointed at the second directory
+		last = *conf
+		w2, err := fswallet.NewFilesystemWallet(ctx, conf)
+		if err != nil {
+			return append(vs, evid.V("availability", "twin: a valid configuration is rejected: %v", err))
+		}
+		runs = append(runs, &run{tag: "twin ", w: w2, m: m2, own: last, okBefore: map[string]bool{}})
+		callerVar("NewFilesystemWallet (twin)")
+		if c.Twin.LateInit {
+			if v := runs[0].start(ctx); v != nil {
+				return append(vs, v...)
+			}
+		}
+		if v := runs[1].start(ctx); v != nil {
+			return append(vs, v...)
+		}
+		callerVar("Initialize (twin)")
+	}
+
+	for i, a := range c.Acts {
+		if a.Op == "scribble" {
+			scribble(conf, a.Mode, root)
+			last = *conf
+			continue
+		}
+		if a.W < 0 || a.W >= len(runs) {
+			return append(vs, evid.V("harness", "action %d: no wallet %d", i, a.W))
+		}
+		v, fatal := runs[a.W].act(ctx, i, a)
+		vs = append(vs, v...)
+		if fatal {
+			return vs
+		}
+		callerVar(fmt.Sprintf("action %d (%s)", i, a.Op))
 		if len(vs) >= 4 {
 			break
 		}
 	}
 	return vs
 }
+
+// act performs one action on the run's wallet and judges it against the run's model.
+func (r *run) act(ctx context.Context, i int, a Action) (vs []evid.Violation, fatal bool) {
+	w, m, okBefore := r.w, r.m, r.okBefore
+	defer func() {
+		if r.tag != "" {
+			for k := range vs {
+				vs[k].Detail = r.tag + vs[k].Detail
+			}
+		}
+	}()
+	switch a.Op {
+	case "accounts":
+		vs = append(vs, checkAccounts(ctx, w, m, i)...)
+	case "refresh":
+		if err := w.Refresh(ctx); err != nil {
+			vs = append(vs, evid.V("exactness", "action %d: Refresh fails on a readable wallet directory: %v", i, err))
+		} else {
+			m.snapshot()
+		}
+	case "write":
+		if a.File == nil {
+			return append(vs, evid.V("harness", "action %d: write without file", i)), true
+		}
+		if err := m.write(*a.File, true); err != nil {
+			return append(vs, evid.V("harness", "action %d: %v", i, err)), true
+		}
+	case "settle":
+		// give the listener a moment so that later requests exercise the notification path; no verdict
+		deadline := time.Now().Add(300 * time.Millisecond)
+		for {
+			lower, _ := m.accountBoundsIfScanned()
+			got, _ := w.GetAccounts(ctx)
+			have := map[string]bool{}
+			for _, g := range got {
+				if g != nil {
+					have[hex.EncodeToString(g[:])] = true
+					m.observed[hex.EncodeToString(g[:])] = true
+				}
+			}
+			missing := false
+			for a := range lower {
+				if !have[a] {
+					missing = true
+				}
+			}
+			if !missing || time.Now().After(deadline) || !m.cfg.Listener {
+				if missing {
+					note("settle:listener-still-pending-after-300ms")
+				} else {
+					note("settle:all-present-files-listed")
+				}
+				break
+			}
+			time.Sleep(time.Millisecond)
+		}
+	case "sign", "typed", "walletfile":
+		if !isHex40(a.Addr) {
+			return append(vs, evid.V("harness", "action %d: bad address %q", i, a.Addr)), true
+		}
+		ex := m.expect(a.Addr)
+		var ab [20]byte
+		b, _ := hex.DecodeString(a.Addr)
+		copy(ab[:], b)
+		var reqErr error
+		var signer string // who the result is bound to, by the independent oracle
+		var oracleErr error
+		switch a.Op {
+		case "sign":
+			tx := a.Tx
+			if tx == nil {
+				tx = &TxSpec{ChainID: 1}
+			}
+			var out []byte
+			out, reqErr = w.Sign(ctx, tx.build(fromJSON(a.Addr, a.From)), tx.ChainID)
+			if reqErr == nil {
+				signer, oracleErr = recoverTx(out, tx.ChainID)
+			}
+		case "typed":
+			var res *ethsigner.EIP712Result
+			res, reqErr = w.SignTypedDataV4(ctx, ethtypes.Address0xHex(ab), typedPayload(a.Typed))
+			if reqErr == nil {
+				if res == nil {
+					oracleErr = fmt.Errorf("nil result without error")
+					break
+				}
+				signer, oracleErr = recoverRSV(res.Hash, res.R, res.S, res.V.BigInt().Int64())
+				if oracleErr == nil {
+					if len(res.SignatureRSV) != 65 {
+						oracleErr = fmt.Errorf("compact signature of %d bytes", len(res.SignatureRSV))
+					} else if s2, e2 := recoverRSV(res.Hash, res.SignatureRSV[0:32], res.SignatureRSV[32:64], int64(res.SignatureRSV[64])); e2 != nil || s2 != signer {
+						oracleErr = fmt.Errorf("compact signature recovers to %q (%v), V/R/S fields to %s", s2, e2, signer)
+					}
+				}
+			}
+		case "walletfile":
+			var wf keystorev3.WalletFile
+			wf, reqErr = w.GetWalletFile(ctx, ethtypes.Address0xHex(ab))
+			if reqErr == nil {
+				if wf == nil || wf.KeyPair() == nil {
+					oracleErr = fmt.Errorf("nil wallet file / key pair without error")
+					break
+				}
+				priv := wf.PrivateKey()
+				signer = addrOfKey(hex.EncodeToString(priv))
+				if signer == "" {
+					oracleErr = fmt.Errorf("wallet file holds %d bytes that are not a valid private key", len(priv))
+				} else if claimed := hex.EncodeToString(wf.KeyPair().Address[:]); claimed != signer {
+					oracleErr = fmt.Errorf("KeyPair().Address %s is not the address of the private key held (%s)", claimed, signer)
+				}
+			}
+		}
+		switch {
+		case reqErr != nil:
+			note("outcome:" + a.Op + ":refused")
+			if ex.must {
+				vs = append(vs, evid.V("availability", "action %d: %s for 0x%s fails although its key file and a usable password (%s) are present: %v", i, a.Op, a.Addr, ex.src, reqErr))
+			}
+		case oracleErr != nil:
+			vs = append(vs, evid.V("safety", "action %d: %s for 0x%s succeeded but the result cannot be tied to a signer: %v", i, a.Op, a.Addr, oracleErr))
+		case signer != a.Addr:
+			vs = append(vs, evid.V("safety", "action %d: %s for 0x%s succeeded with the key of 0x%s (earlier success for this address: %v)", i, a.Op, a.Addr, signer, okBefore[a.Addr]))
+		default:
+			if okBefore[a.Addr] {
+				note("outcome:" + a.Op + ":ok-again(cached or reloaded)")
+			} else {
+				note("outcome:" + a.Op + ":ok")
+			}
+			okBefore[a.Addr] = true
+		}
+		if ex.must {
+			note("claim:must-succeed via " + ex.src)
+		}
+	default:
+		return append(vs, evid.V("harness", "action %d: unknown op %q", i, a.Op)), true
+	}
+	return vs, false
+}
+
 
 // accountBoundsIfScanned is what the list would have to contain if every present file had
 // been noticed (used only to decide when "settle" may stop waiting).
@@ -1191,14 +1349,23 @@ func (m *model) names() []string {
 // analyze runs the model alone over the case (no wallet, no disk) and returns the class
 // labels and whether the case satisfies the non-trivial rule.
 func analyze(c Case, nearMissNames map[string]bool) (classes []string, nontrivial bool) {
-	m := newModel(&c, "/ROOT")
+	ms := []*model{newModel(&c, "/ROOT")}
 	for _, f := range c.Files {
-		_ = m.write(f, false)
+		_ = ms[0].write(f, false)
 	}
-	m.snapshot()
+	if c.Twin != nil {
+		m2 := newModel(&Case{Cfg: c.Twin.Cfg, Keys: c.Keys}, "/ROOT/twin")
+		for _, f := range c.Twin.Files {
+			_ = m2.write(f, false)
+		}
+		ms = append(ms, m2)
+	}
 	set := map[string]bool{}
-	mustBefore := map[string]bool{}
-	nearMissVisible := func() bool {
+	mustBefore := []map[string]bool{{}, {}}
+	for _, m := range ms {
+		m.snapshot()
+	}
+	nearMissVisible := func(m *model) bool {
 		for p := range m.vfs {
 			if strings.HasPrefix(p, "w/") && nearMissNames[p[2:]] {
 				if v, _ := matchName(m.cfg, p[2:]); v == vNo && !m.vfs[p].Dir {
@@ -1208,7 +1375,20 @@ func analyze(c Case, nearMissNames map[string]bool) (classes []string, nontrivia
 		}
 		return false
 	}
+	scribbled := c.Scribble != ""
+	if scribbled {
+		set["caller:Config variable modified before Initialize ("+c.Scribble+")"] = true
+	}
 	for _, a := range c.Acts {
+		if a.Op == "scribble" {
+			set["caller:Config variable modified between actions ("+a.Mode+")"] = true
+			scribbled = true
+			continue
+		}
+		if a.W < 0 || a.W >= len(ms) {
+			continue
+		}
+		m := ms[a.W]
 		switch a.Op {
 		case "refresh":
 			m.snapshot()
@@ -1218,7 +1398,7 @@ func analyze(c Case, nearMissNames map[string]bool) (classes []string, nontrivia
 			set["act:write"] = true
 		case "accounts":
 			set["act:accounts"] = true
-			if nearMissVisible() {
+			if nearMissVisible(m) {
 				set["nt:accounts-with-near-miss-name"] = true
 				nontrivial = true
 			}
@@ -1239,22 +1419,37 @@ func analyze(c Case, nearMissNames map[string]bool) (classes []string, nontrivia
 			}
 			if ex.must {
 				set["req:must-succeed"] = true
-				if mustBefore[a.Addr] {
+				if strings.Contains(ex.src, "white-space-only") {
+					set["req:must-succeed-with-empty-or-white-space-only-password-file"] = true
+				}
+				if scribbled || (c.Twin != nil && a.W == 0) {
+					set["req:must-succeed-after-caller-changed-its-Config-variable"] = true
+				}
+				if mustBefore[a.W][a.Addr] {
 					set["nt:repeat-request(cached path)"] = true
 					nontrivial = true
 				}
-				mustBefore[a.Addr] = true
+				mustBefore[a.W][a.Addr] = true
 			}
 		}
 	}
-	set["naming:"+c.Cfg.Naming] = true
-	set["format:"+c.Cfg.effFormat()+"(configured "+strconv.Quote(c.Cfg.Format)+")"] = true
-	set["listener:"+strconv.FormatBool(c.Cfg.Listener)] = true
-	set["config-via-documented-keys:"+strconv.FormatBool(c.Cfg.ViaSection)] = true
-	set["trim:"+strconv.FormatBool(c.Cfg.Trim)] = true
-	set["with0x:"+strconv.FormatBool(c.Cfg.With0x)] = true
-	set["pwdir:"+strconv.FormatBool(c.Cfg.PwDir)] = true
-	set["default-password:"+strconv.FormatBool(c.Cfg.Default)] = true
+	if c.Twin != nil {
+		set["caller:two-wallets-from-one-Config-variable"] = true
+		if c.Twin.LateInit {
+			set["caller:first-wallet-initialized-after-re-pointing"] = true
+		}
+	}
+	for _, m := range ms {
+		cfg := m.cfg
+		set["naming:"+cfg.Naming] = true
+		set["format:"+cfg.effFormat()+"(configured "+strconv.Quote(cfg.Format)+")"] = true
+		set["listener:"+strconv.FormatBool(cfg.Listener)] = true
+		set["config-via-documented-keys:"+strconv.FormatBool(cfg.ViaSection)] = true
+		set["trim:"+strconv.FormatBool(cfg.Trim)] = true
+		set["with0x:"+strconv.FormatBool(cfg.With0x)] = true
+		set["pwdir:"+strconv.FormatBool(cfg.PwDir)] = true
+		set["default-password:"+strconv.FormatBool(cfg.Default)] = true
+	}
 	return sortedKeys(set), nontrivial
 }
 
@@ -1266,6 +1461,19 @@ func selfTest(t *testing.T) {
 	// the package's own V3 writer must produce files that both its own reader and the
 	// library open with the right password and refuse with a wrong one; and the key pool
 	// must consist of valid keys.  (Sanity anchor for the harness, not deciding evidence.)
+	for _, pw := range []string{"", "\n", " \t"} {
+		// empty and white-space-only passwords are passwords like any other
+		priv, _ := hex.DecodeString(pool[0])
+		for _, kdf := range []string{kdfSc, kdfPb} {
+			f := writeV3(priv, pw, kdf, addrOfKey(pool[0]))
+			if wf, err := keystorev3.ReadWalletFile(f, []byte(pw)); err != nil || hex.EncodeToString(wf.PrivateKey()) != pool[0] {
+				t.Fatalf("library cannot read the harness's %s file encrypted with the password %q: %v", kdf, pw, err)
+			}
+			if _, err := keystorev3.ReadWalletFile(f, []byte(pw+"x")); err == nil {
+				t.Fatalf("library opens the harness's %s file (password %q) with another password", kdf, pw)
+			}
+		}
+	}
 	for i, k := range pool {
 		if addrOfKey(k) == "" {
 			t.Fatalf("pool key %d invalid", i)
@@ -1323,7 +1531,10 @@ func TestCheck(t *testing.T) {
 	statRec = rec
 	tmpBase = t.TempDir()
 	rec.Assume("signer recovery: ref/rlpref (Yellow-Paper RLP, strict decoder) + ref/secp (own secp256k1 over math/big, keccak primitive from x/crypto); key files written by this package's own V3 writer (scrypt N=2 / PBKDF2-HMAC-SHA256 c=2)")
-	rec.Assume("naming / metadata / password lookup model written from config.md; metadata paths are absolute")
+	rec.Assume("naming / metadata / password lookup model written from config.md; metadata paths are absolute; a per-key password file that is present and readable is the key's password source even when it is empty or white space only " +
+		"(trimming on: the empty password; trimming off: the content byte for byte, e.g. \"\\n\") - the default password file is only for keys without a per-key file")
+	rec.Assume("caller-owned memory: the fswallet.Config handed to NewFilesystemWallet belongs to the caller - it is compared with a snapshot after construction, Initialize and every action, and the caller overwrites / re-points it afterwards " +
+		"(zeroed, pointed at an empty decoy directory with other extensions and metadata settings, or re-used to build a second wallet over a second directory); every wallet is judged against the configuration it was constructed from")
 	rec.Assume("not asserted: upper-case hex in file names; primary file spelled with the 0x-prefix form the configuration does not use (extension mode); empty extension without regex; which of several files for one address backs it; " +
 		"symbolic links as primary files; whether passwordTrimSpace applies to the default password file; fallback to the default password when a per-key password file exists but is wrong; " +
 		"how fast the listener notices a new file (only that the list stays within the matching names)")
